@@ -9,6 +9,7 @@ receive, cancel — in any order, at any point) interleaved with the stage's own
 -/
 import Golem.Lemmas.PoolClosed
 import Golem.Lemmas.StageErr
+import Golem.Props.C13
 namespace Golem.Props.C06
 open Golem.Go Golem.Go.Stage Golem.Go.Pool Golem.Model Golem.Lemmas Golem.Lemmas.StageSpec
 
@@ -266,5 +267,33 @@ theorem forEach_sel : ∀ s a, ∀ e ∈ ((forEachS (α := α)).react s a).2.1, 
   intro s a e he; simp_all [forEachS]
 theorem void_sel : ∀ s a, ∀ e ∈ ((voidS (α := α)).react s a).2.1, e.mode = .sel := by
   intro s a e he; simp_all [voidS]
+
+/-! ### Throttling (two goroutines + timer: `Golem.Go.Throttle`), every ops ≥ 1, interval, capacity, schedule -/
+
+section Throttling
+open Golem.Go.Throttle
+variable {γ : Type} {ops interval c : Nat} {p : Golem.Go.Throttle.Net γ}
+
+theorem throttling_no_panic (hr : Golem.Go.Throttle.Reachable (Golem.Go.Throttle.init ops interval c) p) :
+    p.panicked = false := Golem.Props.C13.throttle_no_panic hr
+
+theorem throttling_prefix (hr : Golem.Go.Throttle.Reachable (Golem.Go.Throttle.init ops interval c) p) :
+    p.delivered <+: p.sent := Golem.Props.C13.throttle_prefix hr
+
+/-- input closed and everything delivered: the data goroutine returns and `out` closes (the pacer may stay until cancel) -/
+theorem throttling_closes (hops : 1 ≤ ops) (hr : Golem.Go.Throttle.Reachable (Golem.Go.Throttle.init ops interval c) p)
+    (hcl : p.inp.closed = true) (hall : p.delivered = p.sent) :
+    Acc (fun (q p : Golem.Go.Throttle.Net γ) => q ∈ Golem.Go.Throttle.procNext p) p ∧
+    ∀ q, Golem.Go.Throttle.ProcStar p q → Golem.Go.Throttle.procNext q = [] → (∃ w, q.dc = .exited w) ∧ q.out.closed = true :=
+  Golem.Props.C13.throttle_closes hops hr hcl hall
+
+/-- cancelled with the input closed: both goroutines return and `out`, `ctl` close, nobody receiving -/
+theorem throttling_cancel_terminates (hops : 1 ≤ ops) (hr : Golem.Go.Throttle.Reachable (Golem.Go.Throttle.init ops interval c) p)
+    (hc : p.cancelled = true) (hcl : p.inp.closed = true) :
+    Acc (fun (q p : Golem.Go.Throttle.Net γ) => q ∈ Golem.Go.Throttle.procNext p) p ∧
+    ∀ q, Golem.Go.Throttle.ProcStar p q → Golem.Go.Throttle.procNext q = [] →
+      q.pc = .exited ∧ (∃ w, q.dc = .exited w) ∧ q.out.closed = true ∧ q.ctl.closed = true :=
+  Golem.Props.C13.throttle_cancel_terminates hops hr hc hcl
+end Throttling
 
 end Golem.Props.C06
